@@ -3,7 +3,7 @@
 Real code: pox.lib.addresses (IPAddr, IPAddr6, EthAddr, parse_cidr, netmask/cidr helpers) and pox.lib.util
 (dpid_to_str / str_to_dpid).  Model: lean/PoxModel/Model/Addr.lean through drv_c16.  Independent oracle: Python's
 `ipaddress` module plus a few lines of reference code written from the RFCs (never from the model)."""
-import ipaddress, re, struct, itertools
+import ipaddress, re, struct, itertools, os
 import common
 from common import Check
 
@@ -356,7 +356,7 @@ class C16(Check):
         """A candidate finding whose behaviour is present on this tree (probed in setup) and which is not registered in known_findings.json
         yet is counted in the evidence instead of failing the check; once it is registered it is reported as a KNOWN-FINDING, and on a tree
         where the probe says the behaviour is gone every case is enforced."""
-        if key not in self.CANDIDATE_KEYS or not self.quirk_foreign_compare: return False
+        if key not in self.CANDIDATE_KEYS or not self.quirk_foreign_compare or os.environ.get("C16_ENFORCE_CANDIDATES"): return False
         if self.findings.match(self.id, key): return False
         self.stats["candidate:" + key] = self.stats.get("candidate:" + key, 0) + 1
         return True
